@@ -303,6 +303,11 @@ def special_hook_cases(rng, tier, rec):
                     rec.violation(f"special:B:{label}:exception:{type(e).__name__}", {"label": label, "error": f"{type(e).__name__}: {e}"[:200], "source": src}, facts)
                     continue
                 expect_once(label + "|" + cls.__name__, kinds, who(r), src)
+                # an inherited class-method hook is called ON the class being deserialized (cls is that class, not the declaring one)
+                wrong_cls = [e for e in LOG if e[0] == "pre_de" and e[1] != cls.__name__]
+                if wrong_cls:
+                    rec.violation(f"special:B:{label}:hook-bound-to-another-class", {"label": label, "class": cls.__name__, "trace": [list(map(str, e)) for e in LOG[:8]], "source": src},
+                                  dict(facts, kind="binding"))
     finally:
         fam.dispose()
         LOG.clear()
